@@ -333,7 +333,8 @@ def main():
     recs = explore(prop, cases, rundir, 'main', binary)
     ops = sorted(set(c.split('\t', 1)[0] for c in cases))
     obligations += len(ops)           # one correspondence obligation per operation in scope
-    stats = analyse(recs)
+    omode = prop.get('oracle', 'driver')
+    stats = analyse(recs, omode)
     stats['ops'] = ops
     stats['dist'] = dist
     stats['corpus_cases'] = len(corpus)
@@ -350,7 +351,7 @@ def main():
             broken.append(('build', 'harness[' + (feat or 'no-default-features') + ']', str(e)[-800:]))
             continue
         recs2 = explore(prop, cases, rundir, 'b2', bin2)
-        st2 = analyse(recs2)
+        st2 = analyse(recs2, omode)
         obligations += len(ops) + 1
         bad2 = sorted(set(r[0].split('\t', 1)[0] for r in st2['disagree']))
         discharged += len(ops) - len(bad2)
@@ -400,7 +401,7 @@ def main():
         try:
             dbin = build_harness('std', profile='debug')
             recsd = explore(prop, cases, rundir, 'dbg', dbin)
-            std_ = analyse(recsd)
+            std_ = analyse(recsd, omode)
             obligations += 1
             if std_['disagree'] or std_['viol']:
                 r = (std_['viol'] or std_['disagree'])[0]
@@ -425,7 +426,7 @@ def main():
                 cases2 += prop['gen_search']([r[0] for r in stats['disagree'][:50]], rng)
             cases2 = cases2[:2000000]
             recs2 = explore(prop, cases2, rundir, 'esc', binary)
-            st2 = analyse(recs2)
+            st2 = analyse(recs2, omode)
             stats['viol'] += st2['viol']
             stats['escalated_cases'] = len(cases2)
             notes.append(f'escalated search over {len(cases2)} further cases')
@@ -435,18 +436,26 @@ def main():
     return finish(pid, prop, tier, seed, t0, evidence_path, obligations, discharged, broken, stats['viol'], recs, stats, notes, assum, tb)
 
 
-def analyse(recs):
+def analyse(recs, mode='driver'):
+    """mode: which oracle decides a violation on the implementation's output
+         driver  - the extracted check_ function (0 fails, 1 holds, k>=2 known class)
+         nopanic - the property is totality: only (panic)/(timeout) outputs violate it
+         none    - the property is decided by comparing transcripts (two builds), not per case"""
     disagree, viol, model_fail = [], [], []
     panics = 0
     for r in recs:
         case, il, rl = r
         eq, cm, ci = rl[0], rl[1], rl[2]
+        if mode != 'driver':
+            cm = '1'
+            ci = '0' if (mode == 'nopanic' and ('(panic)' in il or '(timeout)' in il or '(skipped)' in il)) else '1'
+            r = (case, il, [eq, cm, ci] + list(rl[3:]))
         if eq != '1':
             disagree.append(r)
-        if cm != '1':
+        if cm == '0' or not cm.isdigit():
             model_fail.append(r)
         if ci != '1':
-            viol.append(r)
+            viol.append(r)            # '0' = the property fails; 'k' >= 2 = known-finding class k (sorted out in finish)
         if '(panic)' in il or '(timeout)' in il:
             panics += 1
     return {'n': len(recs), 'disagree': disagree, 'viol': viol, 'model_fail': model_fail, 'panics': panics}
@@ -456,15 +465,14 @@ def case_size(case):
     return len(case)
 
 
-def known_match(pid, case, impl):
-    """a listed finding suppresses exactly the cases its matcher names"""
+def known_match(pid, rec):
+    """a listed finding suppresses exactly the cases of its class: the class predicate is part of the proved
+       oracle (Oracles.v / Run.v), which answers k >= 2 for a case of known class k"""
+    ci = rec[2][2] if len(rec[2]) > 2 else '0'
+    if not ci.isdigit() or int(ci) < 2:
+        return None
     for k in load_known():
-        if k.get('property') != pid or k.get('status') != 'open':
-            continue
-        m = k.get('match', {})
-        if 'case_regex' in m and re.search(m['case_regex'], case):
-            return k
-        if 'cases' in m and case in m['cases']:
+        if k.get('status') == 'open' and pid in k.get('properties', [k.get('property')]) and k.get('class_id') == int(ci):
             return k
     return None
 
@@ -474,7 +482,7 @@ def finish(pid, prop, tier, seed, t0, evidence_path, obligations, discharged, br
     known_hits = {}
     new_viol = []
     for r in viol:
-        k = known_match(pid, r[0], r[1])
+        k = known_match(pid, r)
         if k:
             known_hits.setdefault(k['id'], (k, r))
         else:
@@ -527,7 +535,8 @@ def finish(pid, prop, tier, seed, t0, evidence_path, obligations, discharged, br
             'samples': samples,
             'correspondence_ops': stats.get('ops', []),
             'model_impl_disagreements': len(stats.get('disagree', [])),
-            'oracle_failures_on_implementation': len(viol),
+            'oracle_failures_on_implementation': len(new_viol),
+            'known_finding_cases': {k: 1 for k in known_hits} and {kid: sum(1 for r in viol if (known_match(pid, r) or {}).get('id') == kid) for kid in known_hits},
             'panics_or_timeouts_observed': stats.get('panics', 0),
             'input_distribution': stats.get('dist', {}),
             'corpus_cases': stats.get('corpus_cases', 0),
